@@ -116,6 +116,8 @@ pub enum Stmt {
     Break,
     Continue,
     Expr(Expr),
+    /// Verbatim source text of one or more statements (rule-violation injection for C09).
+    Raw(String),
 }
 
 #[derive(Clone, Debug, PartialEq)]
